@@ -121,6 +121,17 @@ impl TimemarkedTransaction {
     }
 }
 
+#[cfg(feature = "verif")]
+impl TimemarkedTransaction {
+    pub(super) fn verif_costs(&self) -> &HashMap<IbcPrefixed, u128> {
+        &self.costs
+    }
+
+    pub(super) fn verif_group(&self) -> Group {
+        self.checked_tx.group()
+    }
+}
+
 impl fmt::Display for TimemarkedTransaction {
     fn fmt(&self, f: &mut fmt::Formatter) -> fmt::Result {
         write!(
